@@ -41,8 +41,8 @@ def isolation_oracle(sc, out):
             looked = any(e["c"] == "find" for e in obs["log"])
             if held and looked and not excluded and not sc.get("faults"):
                 fails.append("exclude list names a credential held for the same RP but the result is not CredentialExcluded")
-            if excluded and not held and not in_known_class and not sc.get("faults") and \
-               not any(e["c"] == "check" and e["r"].get("err") == 0x19 for e in obs["log"]):
+            if excluded and not held and not in_known_class and \
+               not any(isinstance(e.get("r"), dict) and e["r"].get("err") == 0x19 for e in obs["log"]):
                 fails.append("CredentialExcluded although no listed credential is held for this RP")
             if excluded and obs["store_after"] != content and sc["store"]["kind"] in ("ref", "arc_rwlock_ref", "arc_mutex_ref"):
                 fails.append("CredentialExcluded but the store changed")
@@ -77,17 +77,41 @@ def typed_lists(run):
                 scs.append(scenario(store_kind=kind, content=content,
                                     ops=[{"op": "get_assertion", "req": ga_req(rng, allow=lst)}, {"op": "make_credential", "req": mc_req(rng, exclude=lst)}],
                                     user={"script": [{"presence": True, "verification": True}] * 2}))
+    # RP IDs that are NOT the bound one but spelled like it (other letter case, trailing dot, one character more or less, a
+    # sub- or parent domain): the binding is to the exact string - none of them may use or exclude the credential
+    for kind in ("ref", "option", "arc_mutex_option", "arc_rwlock_ref"):
+        held = bytes(range(0x30, 0x40))
+        for bound in ("example.com", "Login.Example.com"):
+            content = [mk_passkey(rng, bound, cred_id=held, keyidx=0, counter=1)]
+            for rp in (bound.upper(), bound.lower(), bound.capitalize(), bound + ".", "." + bound, bound[1:], bound[:-1], "www." + bound,
+                       bound.split(".", 1)[1], bound.replace("e", "E", 1), bound.replace("m", "M")):
+                if rp == bound:
+                    continue
+                for lst in ([held], None):
+                    ops = [{"op": "get_assertion", "req": ga_req(rng, rp=rp, allow=lst)}]
+                    if lst:
+                        ops.append({"op": "make_credential", "req": mc_req(rng, rp=rp, exclude=lst)})
+                    scs.append(scenario(store_kind=kind, content=content, ops=ops, user={"script": [{"presence": True, "verification": True}] * 2}))
+    # a lookup that FAILS (any status other than "no credentials") while the exclude list names nothing held: the registration
+    # is not excluded - a failing store is not a hit
+    for kind in ("ref", "memory", "arc_mutex_ref"):
+        content = [mk_passkey(rng, "other.org", cred_id=bytes([0x51]) * 16, keyidx=0)]
+        for code in (0x01, 0x22, 0x27, 0x28, 0x30, 0x7f):
+            for ex in ([bytes([0x52]) * 16], [bytes([0x51]) * 16, bytes(16)]):
+                scs.append(scenario(store_kind=kind, content=content, faults=[{"at": 0, "code": code}],
+                                    ops=[{"op": "make_credential", "req": mc_req(rng, exclude=ex)}, {"op": "make_credential", "req": mc_req(rng, exclude=ex)}],
+                                    user={"script": [{"presence": True, "verification": True}] * 2}))
     return scs
 
 
 def check(run):
     n = 350 if run.tier == "quick" else 6000
-    scenarios = typed_lists(run) + [gen_history(run.rng, run.tier) for _ in range(n)]
+    scenarios = typed_lists(run) + [gen_history(run.rng, run.tier, faults=(i % 5 == 4)) for i in range(n)]
     ceremony.standard_check(
         run, PROP, scenarios, [history_meta(s) for s in scenarios], ["store_ok"], py_oracle=isolation_oracle,
         coq_files=["theories/Auth/Authenticator.v", "theories/Auth/StoreFacts.v", "theories/Auth/Store.v", "theories/Auth/C05Facts.v", "theories/Auth/History.v"],
         rule="random histories (1-5 operations) over multi-RP stores (0-6 credentials over 3 RPs, identical user handles across RPs), "
-             "allow/exclude lists absent/empty/hit/miss/foreign, descriptors with unknown `type`, every store kind (reference, MemoryStore, Option, and their lock wrappers)",
+             "allow/exclude lists absent/empty/hit/miss/foreign, descriptors with unknown `type`, RP IDs spelled like the bound one (case, dot, one character, sub/parent domain), every store kind (reference, MemoryStore, Option, and their lock wrappers)",
         assumptions=["MemoryStore departs from the lookup contract in two recorded classes (KNOWN_FINDINGS.json): reported, not failed"])
     # a shared store whose lock is briefly held by another handle while the ceremony reaches a store call (C19's deterministic
     # executor): the ceremony must wait - never answer as if nothing were stored, never skip a write
